@@ -6,6 +6,7 @@
    "use the default").  Any number of interfaces and messages. *)
 From Coq Require Import ZArith QArith List Bool Permutation Sorted.
 From Acme.C17 Require Import Model Proofs.
+Require Acme.C17.FloatRemark.
 Import ListNotations.
 Open Scope Q_scope.
 
@@ -99,3 +100,13 @@ Theorem load_order_free : forall b b' def load es load' es',
   load == load'.
 Proof. exact load_order_free_lemma. Qed.
 Print Assumptions load_order_free.
+
+(* Remark over IEEE binary64 (Flocq): accumulating three rates of the model's domain in two
+   different (map) orders gives two different float64 totals, one unit in the last place apart.
+   The float total is therefore determined only up to reassociation; the property is claimed on
+   the exact model above and the implementation is compared with it within a bound. *)
+Theorem float_sum_order_matters :
+  Acme.C17.FloatRemark.sum_abc <> Acme.C17.FloatRemark.sum_cba
+  /\ (Acme.C17.FloatRemark.sum_cba - Acme.C17.FloatRemark.sum_abc = 1)%Z.
+Proof. exact (conj Acme.C17.FloatRemark.float_sum_order_matters_lemma Acme.C17.FloatRemark.float_sum_orders_adjacent_lemma). Qed.
+Print Assumptions float_sum_order_matters.
